@@ -1,4 +1,7 @@
-"""Per-property configuration of ./check: rule text, trusted-base slice, assumptions."""
+"""Per-property configuration of ./check, loaded from tools/propcfg/Cxx.json:
+rule text, trusted-base slice, assumptions, manifest texts.  A property is claimed in
+MANIFEST.json iff its file exists and has "claimed": true (default true)."""
+import json, os, glob
 
 TRUSTED_COMMON = [
     "Coq 8.16.1 kernel and vm_compute (no native_compute); coqchk re-check in the thorough tier",
@@ -6,37 +9,11 @@ TRUSTED_COMMON = [
     "extraction: ExtrOcamlBasic only (Extract Inductive bool/option/unit/list/prod/sumbool/sumor; Extract Inlined Constant andb/orb); OCaml 4.13.1; ocaml/driver.ml (s-expression parser/printer); cross-checked each run by in-Coq vm_compute on a sample",
     "translator T1: verif-tagged dump hooks in /repo + tools/gen_tables.py (JSON -> coq/gen/*.v)",
     "correspondence T2: Go harness (generators, observation printers), tools/sexpr.py, the comparison in ./check",
-    "go1.23.5 toolchain and standard library as the reference semantics of the modelled library calls",
+    "go1.23.5 toolchain and standard library as the reference semantics of the modelled library calls"
 ]
 
-PROPS = {
-    "C14": {
-        "rule": "exhaustive strings over 10 class representatives up to length 4 (thorough 6) + seeded sampled strings (valid-biased and full-byte) + round trips of random byte strings in 4 encodings x wrap widths; a case is non-trivial when the implementation accepts it (decodes to bytes) or returns the library oracle list; distinct = distinct (op,input)",
-        "trusted": ["Go's encoding/base64 decoders re-implemented in Model/Base64.v (std_decode) and compared with the real library on every case (op lib)"],
-        "assumptions": ["the 'corresponding standard decoder' of the property is Go's encoding/base64 (Std, URL, RawStd, RawURL), whose answers the harness records per case"],
-        "oracle_only_ops": [],
-        "level_text": "Theorems over all byte strings (no length bound): the model of DecodeAnyBase64 accepts a string iff one of Go's four base64 decoders (as modelled, and cross-checked against encoding/base64 on every case) accepts it, returns exactly that decoder's bytes, never panics, and round-trips every byte string through all four encodings with arbitrary line wrapping; the 256-entry class table is regenerated from the source and proved equal to the RFC 4648 classes on every run.",
-        "level_note": "Trusted: Coq kernel; Model/Base64.v as a model of internal/util/base64.go and of encoding/base64's decoder (tied by the correspondence check on ~29k quick / ~2.4M thorough cases incl. exhaustive class strings); extraction + driver; the dump hook.",
-        "technique": "Coq proof (induction over 4-character quanta; finite table lemma by vm_compute) + differential correspondence check",
-    },
-}
-
-PROPS["C20"] = {
-    "rule": "report trees (corpus + every C0/DEL/C1 character at start, middle and end of descriptions, attribute names and values, as UTF-8 and as stray bytes + seeded random trees of depth<=3 with hostile strings) printed by the real printInfo through the verif hook, and end-to-end CLI runs on JWT / SSH public key files whose displayed strings are attacker-controlled; non-trivial = every case (each prints a report); distinct = distinct (op,input)",
-    "trusted": ["cmd/decipher verif hook (reads trees, calls the real printInfo)", "Go's unicode/utf8 decoding re-implemented in Lib/Utf8.v (compared with the implementation's sanitize on every tree)"],
-    "assumptions": ["terminal interpretation of bytes >= 0xA0 is outside the property", "file paths come from the command line / directory listing, not from inspected content, and are printed verbatim"],
-    "level_text": "Theorems over all report trees with arbitrary byte strings in every field: the printed report consists of exactly one LF-terminated line per description and per attribute, each starting with the indentation its depth dictates, and contains no C0 control other than those terminators and no DEL; the layout theorems hold for every sanitiser whose output is free of LF. Correspondence: the real printInfo's bytes equal the model's on every generated tree.",
-    "level_note": "Trusted: Coq kernel; Model/Render.v as a model of printInfo/sanitize (tied by byte-exact comparison of the CLI's output on generated trees and files); Lib/Utf8.v as a model of utf8.DecodeRune; extraction + driver; the printInfo hook.",
-    "technique": "Coq proof by nested structural induction over report trees + differential correspondence check of printInfo",
-}
-
-PROPS["C07"] = {
-    "rule": "name predicate on reserved names, near misses, paths, empty and seeded random names; magic predicate on every prefix of every signature; full Inspect on the matrix file-name class x content class (valid instance of every row's format, signature+garbage, polyglots, short prefixes, empty, junk) plus seeded byte mutations of each cell; per case the hooks report each row's sniffer verdict and each row parser's individual result, from which the model computes what Inspect must return; non-trivial = implementation description not empty; distinct = distinct (op,input)",
-    "trusted": ["internal/file verif hooks (table dump, per-row predicates, per-row parser runs)", "sniffers and parsers enter the dispatcher model as oracles whose answers the harness records per case"],
-    "assumptions": ["the signature list of the property (PuTTY, JKS/JCEKS, RPM, SSH1, PGP armor, PEM) is typed independently in Run/C07.v (spec_signatures)"],
-    "level_text": "Theorems for every name, content, sniffer and parser behaviour: Inspect's result is the first success among the candidates in table order; when all candidates fail the description is empty with no attributes or children; a non-empty result is exactly one candidate's result; a signature row whose magic matches and which is preceded only by non-matching signature rows decides the result whatever the name; the dispatcher cannot panic. The format table is regenerated from the running code on every run and its well-formedness (signature rows ordered most-specific-first, no wildcards, parsers present) is re-proved by vm_compute.",
-    "level_note": "Trusted: Coq kernel; Model/Dispatch.v as a model of filetype.go/info.go (tied by comparing candidate lists and Inspect results on the matrix); table dump hook + translator; parsers and sniffers are oracles here (their own models belong to other properties).",
-    "technique": "Coq proof (list induction over candidates; instance lemma on the regenerated table) + differential correspondence check of Inspect",
-}
+PROPS = {}
+for _f in sorted(glob.glob(os.path.join(os.path.dirname(os.path.abspath(__file__)), "propcfg", "C*.json"))):
+    PROPS[os.path.basename(_f)[:-5]] = json.load(open(_f))
 
 NOT_YET = {}
